@@ -379,6 +379,9 @@ func (p *sgxProvisioner) updateCapabilityTEE(ctx context.Context, ts *teeState, 
 	if err != nil {
 		return nil, fmt.Errorf("error while requesting worker quote and public RAK: %w", err)
 	}
+	if rakQuoteRes.RuntimeCapabilityTEERakReportResponse == nil {
+		return nil, fmt.Errorf("error while requesting worker quote and public RAK: malformed runtime response")
+	}
 	rakPub := rakQuoteRes.RuntimeCapabilityTEERakReportResponse.RakPub
 	rekPub := rakQuoteRes.RuntimeCapabilityTEERakReportResponse.RekPub
 	report := rakQuoteRes.RuntimeCapabilityTEERakReportResponse.Report
